@@ -520,7 +520,7 @@ func (w *World) RunLib(bin, mode string, sc *Scenario, jobIdx int, o RunOpts, ex
 	return res
 }
 
-var tempNameRe = regexp.MustCompile(`[^ :]*/temp\d+`)
+var tempNameRe = regexp.MustCompile(`[^ :]*/temp\d+|[^ :]*\.yq-tmp-\d+`)
 
 // maskSite hides the random temp-file names (drawn by the Go runtime, not by the simulator).
 func maskSite(site string) string { return tempNameRe.ReplaceAllString(site, "TEMPFILE") }
